@@ -20,10 +20,18 @@ import vlib
 _lock = threading.RLock()       # evidence counters / scratch numbering are shared by the threads of this check
 _vn = [0]
 
+# Round 3 (seed C14-6): concurrent AddTracker calls queued behind a holder of the database's writer lock (driver mode
+# race-tracker, Session!BeginHold / cfg.split, MC_Session_hold.cfg / MC_Session_lostupdate.cfg).  The family was accepted on
+# the unchanged tree in a reduced run (seed 1, 18 histories) and catches seeded/C14-6 (C14.record.tracker-lost); it has NOT
+# yet been through a full quiet run of the check on the unchanged tree, and the two MC configs have not been timed on an idle
+# machine: off unless VERIF_C14_TRACKER_RACE=1.
+TRACKER_RACE = bool(os.environ.get("VERIF_C14_TRACKER_RACE"))
+
 ASIS_LEADS = [  # (cfg, invariant the code as-is is expected to break, what it means)
     ("MC_Session_asis_orphan.cfg", "NoOrphans", "two concurrent adds with one explicit id both pass the check; the second insert drops the first torrent from the map with its port still taken"),
     ("MC_Session_asis_db.cfg", "RegistryIsDatabase", "remove(id) racing add(id), or CleanDatabase after an invalid record was re-added: a registered torrent without a record"),
     ("MC_Session_asis_crash.cfg", "NoCrash", "AddTracker / Close on a torrent whose record is gone dereferences a nil bucket"),
+    ("MC_Session_lostupdate.cfg", "NoLostTracker", "an AddTracker that reads the stored tracker list in one transaction and writes the extended list in another: callers queued behind a holder of the database's writer lock all extend the same list, the record keeps one of the new trackers"),
     ("MC_Session_sparse.cfg", "RecordIsOwn", "a resume write that stores only non-empty values: a record written over the leftover bucket of a record that failed to load inherits the previous owner's bitfield"),
 ]
 
@@ -99,9 +107,11 @@ def design_level(ctx):
             leads[inv] = {"lead": what, "counterexample_states": len(re.findall(r"\nState \d+: ", out))}
 
     jobs = [(positive, "MC_Session.cfg"), (positive, "MC_Session_leftover.cfg")]
+    if TRACKER_RACE:
+        jobs.append((positive, "MC_Session_hold.cfg"))
     if not ctx.quick():
         jobs.append((positive, "MC_Session_full.cfg"))
-    jobs += [(lead, j) for j in ASIS_LEADS]
+    jobs += [(lead, j) for j in ASIS_LEADS if TRACKER_RACE or j[0] != "MC_Session_lostupdate.cfg"]
     with cf.ThreadPoolExecutor(max_workers=ctx.pick(2, 3)) as pool:
         list(pool.map(lambda j: j[0](j[1]), jobs))
     ctx.extra["asis_design_leads"] = leads
@@ -156,6 +166,7 @@ def session_level(ctx, drv, fast, only):
         (4, "burst-sameid", ctx.pick(3, 8), 2, ctx.pick(4, 8)),
         (5, "race", ctx.pick(4, 12), 0, 2),           # gated RemoveTorrent(a) || AddTorrent(ID: a)
         (6, "race-add", ctx.pick(10, 40), 0, 3),      # gated AddTorrent(ID: a) || AddTorrent/AddURI(ID: a) (|| a third call)
+        (7, "race-tracker", ctx.pick(18, 60), 0, 4),  # k x AddTracker(a) (|| AddTracker(b) / Start / Stop) queued behind a holder of the db writer lock
     ]
     q = queue.Queue()
     stop = threading.Event()
@@ -164,6 +175,8 @@ def session_level(ctx, drv, fast, only):
         try:
             for i, mode, n, ops, k in plan:
                 if only and mode not in only:
+                    continue
+                if mode == "race-tracker" and not (TRACKER_RACE or "race-tracker" in only):
                     continue
                 chunk = 400 if mode == "seq" else 60
                 done = 0
@@ -219,6 +232,8 @@ def session_level(ctx, drv, fast, only):
             raise vlib.MachineryError("no torrent was added over a leftover record of class %s (vacuous run)" % cls)
     if ctx.obligation_counts.get("C14.race_add.first_add_held_while_others_ran", 0) == 0:
         raise vlib.MachineryError("no gated history of concurrent adds with one id was recorded (vacuous run)")
+    if TRACKER_RACE and ctx.obligation_counts.get("C14.race_tracker.queued_behind_writer", 0) == 0:
+        raise vlib.MachineryError("no history with two AddTracker calls on one torrent queued behind the holder of the database's writer lock (vacuous run)")
     if ctx.obligation_counts.get("C14.obs", 0) == 0 or ctx.obligation_counts.get("C14.restart", 0) == 0:
         raise vlib.MachineryError("core obligations were never evaluated (vacuous run)")
 
@@ -346,6 +361,22 @@ def account(ctx, traces):
                 inner = [e for e in evs[first + 1:ret] if e["op"] == "ret" and e.get("g") != 2]
                 if inner:
                     ctx.oblig("C14.race_add.first_add_held_while_others_ran", 1)
+        if evs and str(evs[0].get("mode", "")).startswith("race-tracker"):
+            ctx.oblig("C14.race_tracker.histories", 1)
+            # the gate worked: two or more AddTracker calls on one torrent were open, and none of them had returned "ok",
+            # when the holder of the writer lock let go (they all ran back to back afterwards)
+            for k, e in enumerate(evs):
+                if e["op"] == "call" and e["name"] == "HoldDB":
+                    ret = next((j for j in range(k, len(evs)) if evs[j]["op"] == "ret" and evs[j].get("g") == e.get("g")), len(evs))
+                    inner = [x for x in evs[k + 1:ret] if x["op"] == "call" and x["name"] == "AddTracker" and x.get("valid") and x.get("r_res") == "ok"]
+                    done = [x for x in evs[k + 1:ret] if x["op"] == "ret" and x.get("res") == "ok"]
+                    per_id = {}
+                    for x in inner:
+                        per_id[x.get("id")] = per_id.get(x.get("id"), 0) + 1
+                    if not done and per_id and max(per_id.values()) >= 2 and ret < len(evs) and evs[ret].get("queued", 0) >= evs[ret].get("expect", 1):
+                        ctx.oblig("C14.race_tracker.queued_behind_writer", 1)
+            ctx.oblig("C14.record.tracker-lost", sum(1 for k, e in enumerate(evs) if e["op"] == "obs" and
+                                                      any(x["op"] == "call" and x["name"] == "AddTracker" and x.get("r_res") == "ok" for x in evs[:k])))
         if any(e.get("r_res") == "env" for e in calls):
             ctx.extra["traces_abandoned_env"] = ctx.extra.get("traces_abandoned_env", 0) + 1
         conc = 0
